@@ -20,12 +20,17 @@ func VerifC16CheckURL(ctx context.Context, u *url.URL, policy EgressPolicy, r Ve
 	return checkEgressPolicyURL(ctx, u, policy, r)
 }
 
-func VerifC16IsAllowedIP(ip net.IP) bool { return isAllowedIP(ip) }
+// VerifC16IsAllowedIP asks the policy check itself (rebind protection on, no rules) about a host that
+// resolves to exactly this address, so the harness does not depend on the helper's parameter types.
+type verifFixedResolver struct{ ip net.IP }
 
-func VerifC16MatchHostRule(host string, rule EgressRule) bool { return matchHostRule(host, rule) }
+func (f verifFixedResolver) LookupIPAddr(ctx context.Context, host string) ([]net.IPAddr, error) {
+	return []net.IPAddr{{IP: f.ip}}, nil
+}
 
-func VerifC16MatchRules(host string, ips []net.IP, rules []EgressRule) bool {
-	return matchEgressRules(host, ips, rules)
+func VerifC16IsAllowedIP(ip net.IP) bool {
+	u := &url.URL{Scheme: "http", Host: "probe.verif.invalid"}
+	return checkEgressPolicyURL(context.Background(), u, EgressPolicy{DNSRebindProtection: true}, verifFixedResolver{ip}) == nil
 }
 
 func VerifC17SelectRef(cfg *HMACSigningConfig, at time.Time) (string, error) {
